@@ -36,7 +36,8 @@ fn rule_r1(rng: &mut Rng, identity: bool) -> String {
     ("A", r#"{"regex": "^a"}"#.to_string()),
     ("B", r#"{"any": [{"pattern": "$C"}, {"kind": "identifier"}]}"#.to_string()),
     // a constraint on a variable that only another constraint's pattern captures (a chained constraint)
-    ("C", r#"{"kind": "number"}"#.to_string()),
+    // (checked since fix 15dc688: it rejects the call whose second argument is an array)
+    ("C", r#"{"not": {"kind": "array"}}"#.to_string()),
   ], rng);
   let trans = p(vec![
     ("X", r#"{"substring": {"source": "$Y", "startChar": 1}}"#.to_string()),
@@ -115,7 +116,7 @@ fn write_project(p: &Project, rng: &mut Rng, identity: bool) -> Vec<String> {
   p.write("rules/ts-x.yml", br#"{"id": "only-ts", "language": "TypeScript", "severity": "info", "message": "ts", "rule": {"pattern": "foo($A, x)"}}"#);
   p.write("src/one.js", SRC1.as_bytes());
   p.write("src/two.js", SRC2.as_bytes());
-  p.write("tests/r1-test.yml", br#"{"id": "r1", "valid": ["foo(b, 1)"], "invalid": ["foo(abc, x + 1)", "foo(aXa, [x, 2, x])"]}"#);
+  p.write("tests/r1-test.yml", br#"{"id": "r1", "valid": ["foo(b, 1)", "foo(aXa, [x, 2, x])"], "invalid": ["foo(abc, x + 1)", "foo(aXa, x)"]}"#);
   p.write("tests/r2-test.yml", br#"{"id": "r2", "valid": ["glob(2)"], "invalid": ["glob(1)"]}"#);
   names.iter().map(|s| s.to_string()).collect()
 }
